@@ -45,6 +45,7 @@ def cases(tier, seed):
     for res, rot in itertools.product(RES, ROT if tier == "thorough" else [ROT[seed % 4], ROT[(seed + 1) % 4]]):
         for layout in ("sparse", "dense") if tier == "thorough" else ("sparse",):
             out.append(dict(mode="model", res=res, rot=rot, layout=layout))
+            out.append(dict(mode="model", res=res, rot=rot, layout=layout, numrec=2))
     for blk in range(16):
         out.append(dict(mode="sampler", block=blk))
     return out
@@ -151,7 +152,15 @@ def run_model(case):
     P = lattice([1, imax - 1, 1, jmax - 1], 0.83)
     P = [p for p in P if p[0] < imax - 3.6 and p[1] > 2.1]  # stay inside for 3 steps
     rows = [dict(release_time=world.iso(S0), lon=repr(float(bilin(lon, x, y))), lat=repr(float(bilin(lat, x, y))), Z=1.0) for x, y in P]
-    conf = drive.roms_conf(d, d / "f.nc", S0, S0 + 3 * dt, dt, rows, outvars=("pid", "X", "Y", "lon", "lat"), layout=case["layout"],
+    # plus a regular lon/lat lattice (rows sharing a longitude or a latitude), positions known only through their lon/lat
+    xs_, ys_ = [3.2, 4.4, 5.6], [3.1, 4.3, 5.2]
+    lons = [float(bilin(lon, x, 4.0)) for x in xs_]
+    lats = [float(bilin(lat, 4.0, y)) for y in ys_]
+    if case["rot"] in (0.0, 30.0):  # for these rotations the whole lon x lat lattice lies well inside the grid
+        rows += [dict(release_time=world.iso(S0), lon=repr(lo), lat=repr(la), Z=1.0) for lo in lons for la in lats]
+    nlat = len(rows) - len(P)
+    numrec = 2 if case.get("numrec") else 0
+    conf = drive.roms_conf(d, d / "f.nc", S0, S0 + 3 * dt, dt, rows, outvars=("pid", "X", "Y", "lon", "lat"), layout=case["layout"], numrec=numrec,
                            state=dict(instance_variables=dict(lon="float", lat="float"), default_values=dict(lon=0.0, lat=0.0)))
     viols = []
 
@@ -161,7 +170,7 @@ def run_model(case):
 
     try:
         drive.run_model(conf, d)
-        out = world.read_output([d / "out.nc"], case["layout"])
+        out = world.read_output([d / "out.nc"] if not numrec else [d / "out_000.nc", d / "out_001.nc"], case["layout"])
     except drive.RunFailed as e:
         return util.result(viol=[util.viol("model:crash", f"{case}: {e}", case)], nontrivial=1)
     n = 0
@@ -169,21 +178,21 @@ def run_model(case):
     for ri, rec in enumerate(out["records"]):
         X, Y = np.asarray(rec["vars"]["X"], float), np.asarray(rec["vars"]["Y"], float)
         lo, la = np.asarray(rec["vars"]["lon"], float), np.asarray(rec["vars"]["lat"], float)
-        if len(X) != len(P):
-            bad("model:count", f"record {ri} has {len(X)} particles expected {len(P)}")
+        if len(X) != len(rows):
+            bad("model:count", f"record {ri} has {len(X)} particles expected {len(rows)}")
             break
-        for k in range(len(P)):
+        for k in range(len(rows)):
             n += 1
             if ri == 0:
                 # the release position reproduces the given lon/lat (to the solver tolerance)
                 H = (bilin(lon, X[k], Y[k]) - float(rows[k]["lon"])) ** 2 + (bilin(lat, X[k], Y[k]) - float(rows[k]["lat"])) ** 2
                 if not H < 1e-7:
                     bad("release:lonlat", f"particle {k} released at ({X[k]},{Y[k]}) whose interpolated lon/lat misses the given one by squared residual {H}")
-                if math.hypot(X[k] - P[k][0], Y[k] - P[k][1]) > 1.5 * math.sqrt(1e-7) / smin:
+                if k < len(P) and math.hypot(X[k] - P[k][0], Y[k] - P[k][1]) > 1.5 * math.sqrt(1e-7) / smin:
                     bad("release:position", f"particle {k} released at ({X[k]},{Y[k]}) expected ({P[k][0]},{P[k][1]})")
             if abs(lo[k] - bilin(lon, X[k], Y[k])) > 1e-9 or abs(la[k] - bilin(lat, X[k], Y[k])) > 1e-9:
                 bad("output:lonlat", f"record {ri} particle {k}: lon/lat ({lo[k]},{la[k]}) is not the bilinear interpolation at its own X,Y ({bilin(lon, X[k], Y[k])},{bilin(lat, X[k], Y[k])})")
-    return util.result(evals=n, nontrivial=n, viol=viols, outcomes=[["model", case["layout"]]], states=n, transitions=n, sample=dict(case, particles=len(P)))
+    return util.result(evals=n, nontrivial=n, viol=viols, outcomes=[["model", case["layout"]]], states=n, transitions=n, sample=dict(case, particles=len(rows), lonlat_lattice_rows=nlat))
 
 
 # ------------------------------------------------------------------ sampler
